@@ -27,6 +27,26 @@ Definition to_st (d : dmp) : st :=
   | n => mkSt (Some (expand n (d_bins d))) (d_sc d) (d_cnt d)
   end.
 
+(* a dump given as the changes relative to another dump of the same table length: the changed
+   bins (in increasing index order; BNull = the bin became empty) replace the old ones *)
+Fixpoint merge_bins (old ch : list (N * bin)) {struct old} : list (N * bin) :=
+  let fix go (ch : list (N * bin)) {struct ch} : list (N * bin) :=
+      match ch with
+      | [] => old
+      | (j, b) :: ch' =>
+          match old with
+          | [] => match b with BNull => go ch' | _ => (j, b) :: go ch' end
+          | (i, a) :: old' =>
+              if (j <? i)%N then match b with BNull => go ch' | _ => (j, b) :: go ch' end
+              else if (j =? i)%N then
+                match b with BNull => merge_bins old' ch' | _ => (j, b) :: merge_bins old' ch' end
+              else (i, a) :: merge_bins old' ch
+          end
+      end in
+  go ch.
+Definition mkDd (p : dmp) (ch : list (N * bin)) (sc cnt : Z) : dmp :=
+  mkD (d_len p) (merge_bins (d_bins p) ch) sc cnt.
+
 Definition E_ (k i : N) (v : Z) : N * N * Z := (k, i, v).
 Definition H_ (k h : N) : N * N := (k, h).
 Definition B_ (i : N) (b : bin) : N * bin := (i, b).
@@ -99,12 +119,13 @@ Definition hash_of (tbl : list (N * N)) (k : N) : N :=
 Definition check_step (ht : list (N * N)) (pre : dmp) (o : op) (out : outcome) (post : dmp) : N :=
   let kh := hash_of ht in
   let s := to_st pre in
-  if negb (wf_b kh s) then 3%N
-  else if negb (wf_b kh (to_st post)) then 4%N
+  (* the pre-state is the post-state of the previous item, whose well-formedness was checked there *)
+  let p := to_st post in
+  if negb (wf_b kh p) then 4%N
   else
     let '(s', r) := step kh remap_tbl keep_tbl s o in
     if negb (out_eqb r out) then 1%N
-    else if negb (st_eqb s' (to_st post)) then 2%N else 0%N.
+    else if negb (st_eqb s' p) then 2%N else 0%N.
 
 Definition check_new (ht : list (N * N)) (c : Z) (post : dmp) : N :=
   if negb (wf_b (hash_of ht) (to_st post)) then 4%N
